@@ -36,9 +36,12 @@ ASSUMPTIONS = [
     "value (None / [])",
 ]
 FLOORS = {"quick": {"handler_calls_checked": 30000, "error_maps": 6000,
-                    "with_overrides": 300},
+                    "with_overrides": 300, "reused_loader_loads": 10000,
+                    "duplicate_maps_on_empty_handler": 500},
           "thorough": {"handler_calls_checked": 2000000,
-                       "error_maps": 1500000}}
+                       "error_maps": 1500000,
+                       "reused_loader_loads": 800000,
+                       "duplicate_maps_on_empty_handler": 20000}}
 N_MODELS = {"quick": 2400, "thorough": 60000}
 TEXTS = {"quick": 8, "thorough": 24}
 
@@ -160,6 +163,20 @@ def judge(ctx, p, rng):
             res.violate("unused-name-called", case, [], "unused-extra")
     if not names:
         res.sample("no-entries", {"schema": p.xml, "text": p.text}, 1)
+        # a handler without entries still refuses two names that normalise
+        # to one key
+        for pair in ([("unused-extra", "rec"), ("UNUSED-EXTRA", "rec")],
+                     [("Abc", "none"), ("abc", "rec")]):
+            calls, out = run("duplicate", pair)
+            res.count("error_maps")
+            res.count("duplicate_maps_on_empty_handler")
+            if out[0] != "config-error" or calls:
+                res.violate("duplicate-names-not-all-or-nothing",
+                            dict(case, map="duplicate", dup=pair[0][0]),
+                            ["config-error", []], [list(out), len(calls)],
+                            detail="handler without entries, names %r"
+                            % [x[0] for x in pair],
+                            vsig="dup-empty|%s" % out[0])
         return
     res.sample("entries", {"schema": p.xml, "text": p.text,
                            "expected_calls": entries[:6]}, 2)
@@ -279,14 +296,50 @@ def fault_plan(rng):
     return 0 if rng.random() < 0.85 else 1
 
 
+def judge_reused_loader(ctx, p, state):
+    """The same texts through one ConfigLoader object per schema: the
+    handler of each load has the entries of that load only."""
+    import io
+    import ZConfig
+    from ZConfig.loader import ConfigLoader
+    res = ctx.res
+    if state.get("schema") is not p.schema:
+        state["schema"] = p.schema
+        state["loader"] = ConfigLoader(p.schema)
+    try:
+        config, handler = state["loader"].loadFile(io.StringIO(p.text))
+    except ZConfig.ConfigurationError:
+        got = "reject"
+    except Exception as e:  # noqa
+        got = "raised " + type(e).__name__
+    else:
+        got = [[h, outcome.canon_value(v)] for h, v in handler._handlers]
+        if len(handler) != len(got):
+            got = "len() says %d, %d entries" % (len(handler), len(got))
+    want = p.obs[2] if p.obs[0] == "ok" else "reject"
+    if p.obs[0] != "ok" and p.obs[1] != "config":
+        return
+    res.count("reused_loader_loads")
+    if got != want:
+        res.violate("handler-entries-differ-on-reused-loader", p.case(),
+                    want if isinstance(want, str) else len(want),
+                    got if isinstance(got, str) else len(got),
+                    detail="one ConfigLoader for every text of the schema; "
+                    "text=%r" % p.text,
+                    vsig="reused-loader|%s" % (got if isinstance(got, str)
+                                               else "entries"))
+
+
 def run_shard(ctx):
     rng = ctx.rng("maps")
     dens = ctx.rng("density")
+    state = {}
     for p in cc.pairs(ctx, N_MODELS[ctx.tier], TEXTS[ctx.tier],
                       systematic=False, handlers=True,
                       handler_density=0.2 + 0.6 * dens.random(),
                       fault_plan=fault_plan, p_bad_value=0.0):
         judge(ctx, p, rng)
+        judge_reused_loader(ctx, p, state)
         if rng.random() < 0.4:
             judge_with_overrides(ctx, p, rng)
 
